@@ -33,8 +33,8 @@ CHECKS = {
    text="Header lists are generated from a grammar (well-formed base + catalogue of single and double rule violations, about half well-formed) and placed among other requests; the handler must run iff the predicate holds, otherwise that stream alone is refused with RST_STREAM(PROTOCOL_ERROR) or a 4xx while neighbours and HPACK state stay intact. The client lane does the same for response header lists (single valid :status first, lower-case, no connection-specific fields, numeric content-length) through RoundTrip against the scripted TLS server, with neighbour requests before and after sharing HPACK entries. Exploration only.",
    note="Trusted: the predicate of DESIGN appendix B (derived from the RFC text), the scripted peer; CONNECT and out-of-grammar characters excluded as the property says.",
    ref="6.2 C20"),
- "C08": dict(technique="model-based property testing (rapid): RFC 7540 5.1/6 reaction model (set of allowed reactions per state x frame) followed along generated frame sequences, lock-step via hook-counter quiescence",
-   text="Generated frame sequences (all stream-level frame kinds with flag/priority/padding/increment variants and undefined flag bits, on new, open, half-closed, reset, completed, skipped, even and zero stream ids, with connection frames in between; immediate or gated handlers) are sent one frame at a time; after each, the observed reaction must lie in the set the RFC allows for that state and frame, legal sequences must raise no error, and handler invocations must equal the legally completed requests. Exploration only.",
+ "C08": dict(technique="model-based property testing (rapid): RFC 7540 5.1/6 reaction model (set of allowed reactions per state x frame) followed along generated frame sequences, plus bounded-exhaustive enumeration of all sequences of <=3 symbols over a fixed (frame, stream slot) alphabet; lock-step via hook-counter quiescence",
+   text="Generated frame sequences (all stream-level frame kinds with flag/priority/padding/increment variants and undefined flag bits, on new, open, half-closed, reset, completed, skipped, even and zero stream ids, with connection frames in between; immediate or gated handlers) are sent one frame at a time; after each, the observed reaction must lie in the set the RFC allows for that state and frame, legal sequences must raise no error, and handler invocations must equal the legally completed requests. The same oracle is run over every sequence of 1..3 symbols of a 49-symbol alphabet (complete in the thorough tier, a seed-chosen residue class of the length-3 sequences in the quick tier) and over a quarter of the length-4 sequences (thorough). Exploration only: exhaustive within that bounded alphabet, sampled beyond it.",
    note="Trusted: the reaction table of DESIGN appendix A (union of what RFC 7540/9113 permit, so server latitude is never flagged); quiescence from hook counters.",
    ref="6.2 C08, appendix A"),
  "C09": dict(technique="property-based testing (rapid) of offence placement: catalogue of stream-scoped offences x offence point x in-flight frames among well-formed streams that share HPACK dynamic-table entries; exchange oracle on every non-offending stream",
@@ -57,7 +57,7 @@ CHECKS = {
    text="Generated attack schedules (rapid reset with parked handlers, half-open streams, PRIORITY on new ids, CONTINUATION floods incl. a never-completed string, oversized / mis-declared bodies, oversized header lists, PING/SETTINGS floods) against small limits; invariants at every quiescent point: concurrent handlers <= MaxConcurrentStreams, no handler for a request over a limit, stream table / closed-id memory / buffered header and body octets within limit-derived bounds (high-water marks from the stream loop's own gauges); playing the schedule four times must leave the gauges where one pass leaves them. Exploration only.",
    note="Trusted: gauges published by the hook at the top of each stream-loop iteration; the bounds are derived from the configured limits plus one frame.",
    ref="6.2 C13"),
- "C17": dict(technique="fault-injecting property-based testing (rapid): recorded well-formed byte streams x cut offsets x structure-aware mutations x frame soups x peer/transport faults; invariants from the server log, goroutine dumps attributed to the connection, and the pool observer",
+ "C17": dict(technique="fault-injecting property-based testing (rapid): recorded well-formed byte streams x cut offsets (sampled, and every offset of six fixed recordings) x structure-aware mutations x frame soups x peer/transport faults; invariants from the server log, goroutine dumps attributed to the connection, and the pool observer",
    text="Recorded well-formed client streams are delivered up to any byte, mutated frame-wise, extended with frame soup, with the peer not reading or the server's writes failing from any octet, ended by EOF or reset, with handlers released before or after the disconnect. Checked: no panic in the server's log (recovered ones count) and no process death (crash journal), ServeConn returns within 6 s of the peer being gone, only harness-held handler goroutines of that connection remain (none after release), no RequestCtx is returned to its pool while its handler is inside, no double release. Exploration (random cut points and mutations, not every offset of every recording).",
    note="Trusted: goroutine dumps filtered by the connection object's address (hook), pool observer, captured logger.",
    ref="6.2 C17"),
@@ -73,7 +73,7 @@ CHECKS = {
    text="Generated positions of GOAWAY(last-stream-id, code) relative to 1..5 in-flight requests with partial responses, a possible REFUSED_STREAM, later answers in any order, connection loss, and further requests racing the GOAWAY. Checked per request tag over every connection the client dials: HEADERS at most once unless each earlier copy was disclaimed by its connection; no stream opened after the GOAWAY was seen; disclaimed requests resolved at quiescence and never successful from that connection; retry==true only when the server cannot have processed the request; answered requests at or below last-stream-id succeed exactly; everything resolves exactly once. Exploration only.",
    note="Trusted: scripted servers' frame logs; the client's quiescence.",
    ref="6.2 C11"),
- "C12": dict(technique="fault-injecting property-based testing (rapid) of the client: recorded server streams x cut offsets x frame mutations x scripted adversaries x transport faults x Close timing; differential oracle for successes against an independent parser of the delivered octets",
+ "C12": dict(technique="fault-injecting property-based testing (rapid) of the client: recorded server streams x cut offsets (sampled, and every offset of one fixed recording) x frame mutations x scripted adversaries x transport faults x Close timing; differential oracle for successes against an independent parser of the delivered octets",
    text="Recorded well-formed response streams are cut at any octet, mutated frame-wise, or interrupted by scripted adversaries, followed by silence / close / reset, with write failures on the client's side or Client.Close() at generated stages. Every RoundTrip must return exactly once within MaxResponseTime plus a margin (misses are reported with the client's goroutine dump), a success must equal the complete well-formed response an independent parser (x/net Framer + strict reference HPACK) finds on that stream in the octets actually delivered, follow-up requests on a fresh connection must get their own responses, no client loop may remain after Close, and the process must survive. Exploration: cut points and mutations are sampled; timing-dependent paths (timeouts, Close races) run with real but short timers.",
    note="Trusted: the reference parser of the delivered octets; wall-clock bound only as 'resolved within timeout + 4 s'.",
    ref="6.2 C12"),
